@@ -246,7 +246,7 @@ pub fn run(ctx: &Ctx) -> Report {
             if !ctx.want(&case) || (li % 3 != 0 && name.contains("_n4_")) {
                 continue; // a third of the n = 4 permutations is plenty here
             }
-            let path = format!("{}/{}.shp", dir, name);
+            let path = format!("{}/{}.{}", dir, name, get("ext").unwrap_or_else(|| "shp".into()));
             rep.eval();
             rep.class("typed vs generic by path, permuted/padded index");
             rep.count("indexed_pairs_compared_by_path", 1);
